@@ -199,10 +199,10 @@ func c11cases(env *core.Env) []c11case {
 			cs = append(cs, c11case{Part: "fault", Size: size, Store: store})
 		}
 	}
-	for i := 0; i < env.Pick(120, 3000); i++ {
+	for i := 0; i < env.Pick(600, 6000); i++ {
 		cs = append(cs, c11case{Part: "gated", Rep: i})
 	}
-	for i := 0; i < env.Pick(40, 600); i++ {
+	for i := 0; i < env.Pick(150, 1500); i++ {
 		cs = append(cs, c11case{Part: "free", Rep: i})
 	}
 	return cs
